@@ -118,6 +118,9 @@ def run(ctx):
     r121(ctx)
     r122(ctx)
     r124(ctx)
+    r125(ctx)
+    from . import c02 as _c02c
+    _c02c.r21(ctx)
     from . import c02 as _c02
     _c02.r29(ctx, 'R1.20')
     from . import c07
@@ -660,3 +663,26 @@ def r124(ctx, rule='R1.24'):
             ctx.ob(rule, 'writer.%s:every-value-of-the-cast-is-compared' % q, not partial,
                    '`%s` looks at part of the values only; the guess that picked the integer encoding is not made on append nor '
                    'for later row groups' % norm(x.test)[:100], wr.loc(x))
+
+
+def r125(ctx, rule='R1.25'):
+    """converted_types.converts_inplace promises that convert() hands back (a view of) the array it was given - the v2
+    reader then discards convert()'s result.  Its logical-type arm holds for TIMESTAMP only (viewed as datetime64); any
+    other logical type (DECIMAL ...) is converted into a new array.  And _dtypes never hands the pandas-metadata type
+    string to np.dtype (zone-aware spellings are not numpy dtypes)"""
+    ct = ctx.repo['converted_types']
+    f = ct.func('converts_inplace')
+    arms = [x for x in f.body if isinstance(x, ast.If) and 'logicalType' in norm(x.test)]
+    ok = len(arms) == 1 and 'TIMESTAMP' in norm(arms[0].test) and [norm(s) for s in arms[0].body] == ['return True']
+    ctx.ob(rule, 'converted_types.converts_inplace:logical-type-arm-is-for-timestamps-only', ok,
+           '`if %s: return True`' % (norm(arms[0].test) if arms else '?'), ct.loc(arms[0]) if arms else ct.loc(f))
+    ctx.ob(rule, 'converted_types.converts_inplace:everything-else-is-not-in-place', norm(f.body[-1]) == 'return False', norm(f.body[-1]), ct.loc(f))
+    cv = ct.func('convert')
+    lt = [x for x in ast.walk(cv) if isinstance(x, ast.If) and 'logicalType.TIMESTAMP is not None' in norm(x.test)]
+    ctx.ob(rule, 'converted_types.convert:logical-timestamp-arm-returns-a-view', len(lt) == 1 and any(isinstance(r, ast.Return) and '.view(' in norm(r) for r in lt[0].body), '', ct.loc(cv))
+    api = ctx.repo['api']
+    g = api.func('ParquetFile._dtypes')
+    bad = [c for c in walk_no_nested(g) if isinstance(c, ast.Call) and callee(c) == 'np.dtype' and c.args and norm(c.args[0]) in ('nt', 'tt', "md[col]['numpy_type']")]
+    ctx.ob(rule, 'api._dtypes:metadata-type-string-not-parsed-by-numpy', not bad,
+           '`%s`: "datetime64[s, UTC]" is not a numpy dtype; the unit of zone-aware columns would silently fall back to the schema\'s' % (norm(bad[0]) if bad else ''),
+           api.loc(bad[0]) if bad else api.loc(g))
